@@ -25,6 +25,13 @@ STRATEGY = {
   (4) an error/slow path followed by recovery: the first failure is handled right, but what is left behind (a flag, a counter, a stale cached value, a timer, a task reference) makes a LATER, ordinary operation wrong;
   (5) an innocent-looking refactoring of a helper used by the anchored code (sorting key, comparison, rounding, default parameter, dataclass equality/hash, set vs list, `or` on a value that can legitimately be 0).
   A good change survives code review ("looks equivalent") and needs a specific scenario to show.""",
+    6: """* Find something genuinely different.  Strategy for this round - pick TWO DIFFERENT ones of these angles:
+  (1) sibling code paths: the behaviour the property describes is usually implemented in several parallel places (one per component category, per formula generator, per container type, per metric, per phase, object-level API vs actor-level API, first call vs later calls) - break only ONE sibling, preferably the least used one, and leave the others intact;
+  (2) branches the existing tests never execute: find them (e.g. `cd <worktree> && PYTHONPATH=<worktree>/src /venv/bin/python -m trace --count --missing --coverdir=/tmp/<your dir>/cov -m pytest -q -p no:cacheprovider tests/<relevant dir>` and look at lines marked `>>>>>>` in the .cover files of the anchored modules, or temporarily put `raise AssertionError` into a branch and see whether any test fails) and break the property inside a legal-but-untested branch;
+  (3) configuration: a non-default value of a constructor/config parameter that the property's quantifier covers (periods, ages, buffer sizes, restart limits and delays, timeouts, priorities, flags such as set_operating_point / adjust_power / nones_are_zeros / allow_fallback, distribution parameters) - correct for the default, wrong for another legal value;
+  (4) scale and long runs: something that only goes wrong with many elements (tens of series / actors / components / subscriptions / proposals), after a long history (hundreds of operations, a counter that grows, a buffer that fills, a cache that evicts) or with large magnitudes (timestamps years away, megawatts, week-long durations);
+  (5) two independent features used together that each work alone (e.g. exclusion bounds AND operating point, fallback AND composition, removal AND re-adding, stop AND restart, duplicate request AND hand-over).
+  A good change survives code review ("looks equivalent") and needs a specific scenario to show.""",
 }
 
 
